@@ -53,7 +53,7 @@ package identity
 //@ after call LoadKeypair let loadErr = $ret1
 //@ after call os.Stat let statErr = $ret1
 //@ after call os.IsNotExist let missing = $ret
-//@ at call os.Stat assert loadErr != nil && $0 == pathJoin2(dataDir, "agent_key")
+//@ at call os.Stat assert loadErr != nil && $0 == fpJoin2(dataDir, "agent_key")
 //@ at call os.IsNotExist assert $0 == statErr
 //@ at call NewKeypair assert missing
 //@ at call (*Keypair).Store assert missing && $1 == dataDir
